@@ -2,9 +2,18 @@
 //   param_driver replay <plan.txt> <out.ndjson>   : steps real parameter_t objects along the edges of TLC's state graph
 //                                                   of Parameter.tla and compares the projected state after every step
 //   param_driver sweep <out.ndjson>               : records a trace over every object of every factory (defaults,
-//                                                   ids, clones, independent modification) for ConfigurableTrace.tla
+//                                                   ids, clones with a behaviour probe per kind of object, independent
+//                                                   modification, factory queries) and over driver-owned cases (parameter
+//                                                   construction over other domains, pair strings, a configurable object of
+//                                                   the driver's own: duplicate registration, config(...)) for ConfigurableTrace.tla
+#include "tabledata.h"
 #include "trace.h"
 #include <cstring>
+#include <filesystem>
+#include <nano/dataset.h>
+#include <nano/generator/elemwise_identity.h>
+#include <nano/machine/params.h>
+#include <nano/solver/state.h>
 #include <nano/core/verif.h>
 #include <nano/logger.h>
 #include <cmath>
@@ -28,6 +37,7 @@
 #include <nano/dataset/scaling.h>
 #include <nano/solver/lstep.h>
 #include <nano/task.h>
+#include <regex>
 #include <sstream>
 
 using namespace nano;
@@ -573,6 +583,118 @@ vt::J param_event(const char* e, int64_t obj, const parameter_t& p, const std::v
         .b("typedOK", pi.typedOK);
 }
 
+// ---- fixtures of the behaviour probes: tiny fixed data (every value is a fixed formula of the sample index)
+std::string g_probe_dir; // directory with small files for the file-based data sources (iris/iris.data, wine/wine.data)
+
+// flavour: 0 = every kind of feature (some values missing), 1 = scalar features only, 2 = as 0 plus an image-like feature
+const vt::table_datasource_t& probe_source(const int flavour)
+{
+    const auto make = [](const bool only_scalars, const bool image)
+    {
+        const int64_t             n = 18;
+        std::vector<vt::column_t> columns;
+        auto x0 = vt::make_scalar_column("x0", feature_type::float64, n);
+        auto x1 = vt::make_scalar_column("x1", feature_type::int16, n);
+        auto x2 = vt::make_scalar_column("x2", feature_type::float64, n);
+        auto c0 = vt::make_sclass_column("c0", 3, n);
+        auto m0 = vt::make_mclass_column("m0", 3, n);
+        auto s0 = vt::make_struct_column("s0", feature_type::float64, make_dims(2, 1, 2), n);
+        auto s1 = vt::make_struct_column("s1", feature_type::float64, make_dims(1, 4, 4), n);
+        auto y  = vt::make_scalar_column("y", feature_type::float64, n);
+        for (size_t q = 0; q < s1.flat.size(); ++q)
+        {
+            s1.flat[q] = 0.25 * static_cast<double>((q * q + 3 * q) % 17) - 2.0;
+        }
+        for (int64_t i = 0; i < n; ++i)
+        {
+            const auto u = static_cast<size_t>(i);
+            x0.flat[u]   = static_cast<double>((i * 7) % 11) - 5.0 + 0.25 * static_cast<double>(i);
+            x1.flat[u]   = static_cast<double>((i * 5) % 9 - 4);
+            x2.flat[u]   = 0.5 * static_cast<double>((i * i + 3) % 7) - 1.5;
+            c0.flat[u]   = static_cast<double>((i * i + 1) % 3);
+            for (int64_t k = 0; k < 3; ++k)
+            {
+                m0.flat[u * 3U + static_cast<size_t>(k)] = static_cast<double>((i >> k) & 1);
+            }
+            for (int64_t k = 0; k < 4; ++k)
+            {
+                s0.flat[u * 4U + static_cast<size_t>(k)] = 0.5 * static_cast<double>((i * 3 + k * 5) % 7) - 1.0;
+            }
+            y.flat[u] = 0.75 * x0.flat[u] - 0.5 * x1.flat[u] + (c0.flat[u] == 1.0 ? 1.0 : 0.0) + 0.125 * static_cast<double>((i * 13) % 5);
+        }
+        if (!only_scalars)
+        {
+            x1.missing[3] = 1;
+            c0.missing[5] = 1;
+        }
+        columns.push_back(x0);
+        columns.push_back(x1);
+        columns.push_back(x2);
+        if (!only_scalars)
+        {
+            columns.push_back(c0);
+            columns.push_back(m0);
+            columns.push_back(s0);
+        }
+        if (image)
+        {
+            columns.push_back(s1);
+        }
+        columns.push_back(y);
+        auto source = std::make_unique<vt::table_datasource_t>(n, columns, columns.size() - 1U);
+        source->load();
+        return source;
+    };
+    static const auto mixed  = make(false, false);
+    static const auto scalar = make(true, false);
+    static const auto images = make(false, true);
+    return flavour == 1 ? *scalar : flavour == 2 ? *images : *mixed;
+}
+
+const dataset_t& probe_dataset(const bool dense)
+{
+    const auto make = [](const bool only_scalars)
+    {
+        auto dataset = std::make_unique<dataset_t>(probe_source(only_scalars ? 1 : 0), size_t{1});
+        dataset->add<sclass_identity_generator_t>();
+        dataset->add<mclass_identity_generator_t>();
+        dataset->add<scalar_identity_generator_t>();
+        dataset->add<struct_identity_generator_t>();
+        return dataset;
+    };
+    static const auto mixed  = make(false);
+    static const auto scalar = make(true);
+    return dense ? *scalar : *mixed;
+}
+
+void make_probe_files(const std::string& dir)
+{
+    namespace fs = std::filesystem;
+    fs::create_directories(fs::path(dir) / "iris");
+    fs::create_directories(fs::path(dir) / "wine");
+    {
+        std::ofstream os(fs::path(dir) / "iris" / "iris.data");
+        const char*   labels[] = {"Iris-setosa", "Iris-versicolor", "Iris-virginica"};
+        for (int i = 0; i < 150; ++i)
+        {
+            os << (4.0 + 0.1 * ((i * 7) % 31)) << "," << (2.0 + 0.1 * ((i * 3) % 23)) << "," << (1.0 + 0.1 * ((i * 11) % 57)) << "," << (0.1 * ((i * 5) % 25))
+               << "," << labels[i / 50] << "\n";
+        }
+    }
+    {
+        std::ofstream os(fs::path(dir) / "wine" / "wine.data");
+        for (int i = 0; i < 178; ++i)
+        {
+            os << (1 + i % 3);
+            for (int k = 0; k < 13; ++k)
+            {
+                os << "," << (0.5 * ((i * (k + 3) + k) % 41));
+            }
+            os << "\n";
+        }
+    }
+}
+
 // a deterministic observation of what an object DOES (bit patterns of the results of one fixed call): an object and its clone with
 // equal parameters must give the same observation ("behaves identically"); "" when there is nothing cheap to observe
 void digest(std::ostringstream& os, const double v)
@@ -678,6 +800,189 @@ std::string behaviour(const tobject& object)
             }
             os << static_cast<int>(state.status()) << "," << state.fcalls() << "," << state.gcalls();
         }
+        else if constexpr (std::is_base_of_v<lsearch0_t, tobject>)
+        {
+            // the initial step at a first iterate, then at a second one given the step taken in between
+            // (the object keeps what it saw at the previous call; the first call of a run does not look at it: the pair is reproducible)
+            auto&      lsearch0 = const_cast<tobject&>(object); // NOLINT(cppcoreguidelines-pro-type-const-cast)
+            const auto function = function_t::all().get("sphere")->make(3, 10);
+            vector_t   x0(3);
+            x0(0) = 1.0;
+            x0(1) = -0.5;
+            x0(2) = 0.25;
+            const solver_state_t state0(*function, x0);
+            const vector_t       descent0 = -state0.gx();
+            digest(os, lsearch0.get(state0, descent0, -1.0));
+            const vector_t       x1 = x0.vector() + 0.125 * descent0.vector();
+            const solver_state_t state1(*function, x1);
+            const vector_t       descent1 = -state1.gx();
+            digest(os, lsearch0.get(state1, descent1, 0.125));
+        }
+        else if constexpr (std::is_base_of_v<lsearchk_t, tobject>)
+        {
+            // line searches along the steepest descent of a fixed quadratic: from a step that is too long and from one that is too short
+            const auto function = function_t::all().get("sphere")->make(3, 10);
+            for (const auto t0 : {1.0, 1e-3})
+            {
+                vector_t x0(3);
+                x0(0) = 1.0;
+                x0(1) = -0.5;
+                x0(2) = 0.25;
+                solver_state_t state(*function, x0);
+                const vector_t descent = -state.gx();
+                const auto [ok, t]     = object.get(state, descent, t0, make_null_logger());
+                os << (ok ? "ok," : "failed,");
+                digest(os, t);
+                digest(os, state.fx());
+            }
+        }
+        else if constexpr (std::is_base_of_v<wlearner_t, tobject>)
+        {
+            // fit on a tiny fixed dataset, then predict
+            auto&       wlearner = const_cast<tobject&>(object); // NOLINT(cppcoreguidelines-pro-type-const-cast)
+            const auto& dataset  = probe_dataset(false);
+            const auto  samples  = arange(0, dataset.samples());
+            tensor4d_t  gradients(cat_dims(samples.size(), dataset.target_dims()));
+            for (tensor_size_t i = 0; i < gradients.size(); ++i)
+            {
+                gradients(i) = 0.5 * static_cast<double>((i * 7) % 5) - 1.0 + 0.0625 * static_cast<double>(i);
+            }
+            const auto score = wlearner.fit(dataset, samples, gradients);
+            digest(os, score);
+            if (score != wlearner_t::no_fit_score())
+            {
+                for (const auto f : wlearner.features())
+                {
+                    os << f << ",";
+                }
+                const auto outputs = wlearner.predict(dataset, samples);
+                for (tensor_size_t i = 0; i < outputs.size(); ++i)
+                {
+                    digest(os, outputs(i));
+                }
+            }
+        }
+        else if constexpr (std::is_base_of_v<generator_t, tobject>)
+        {
+            // fit to a tiny fixed data source: the generated features and their values
+            auto&       generator = const_cast<tobject&>(object); // NOLINT(cppcoreguidelines-pro-type-const-cast)
+            const auto& source    = probe_source(2);
+            generator.fit(source);
+            const auto samples = arange(0, source.samples());
+            os << generator.features() << ":";
+            for (tensor_size_t f = 0; f < generator.features(); ++f)
+            {
+                const auto feature = generator.feature(f);
+                os << feature.name() << "/" << static_cast<int>(feature.type()) << "/" << feature.classes() << "/";
+                const auto dims = feature.dims();
+                switch (feature.type())
+                {
+                case feature_type::sclass:
+                {
+                    sclass_mem_t values(samples.size());
+                    generator.select(samples, f, values.tensor());
+                    for (const auto v : values)
+                    {
+                        os << static_cast<int>(v) << ",";
+                    }
+                    break;
+                }
+                case feature_type::mclass:
+                {
+                    mclass_mem_t values(samples.size(), feature.classes());
+                    generator.select(samples, f, values.tensor());
+                    for (const auto v : values)
+                    {
+                        os << static_cast<int>(v) << ",";
+                    }
+                    break;
+                }
+                default:
+                    if (::nano::size(dims) == 1)
+                    {
+                        scalar_mem_t values(samples.size());
+                        generator.select(samples, f, values.tensor());
+                        for (const auto v : values)
+                        {
+                            digest(os, v);
+                        }
+                    }
+                    else
+                    {
+                        struct_mem_t values(cat_dims(samples.size(), dims));
+                        generator.select(samples, f, values.tensor());
+                        for (const auto v : values)
+                        {
+                            digest(os, v);
+                        }
+                    }
+                    break;
+                }
+                os << ";";
+            }
+        }
+        else if constexpr (std::is_base_of_v<linear_t, tobject>)
+        {
+            // fit on a tiny fixed dataset (scalar inputs): bias, weights, predictions
+            auto&       model   = const_cast<tobject&>(object); // NOLINT(cppcoreguidelines-pro-type-const-cast)
+            const auto& dataset = probe_dataset(true);
+            const auto  samples = arange(0, dataset.samples());
+            const auto  loss    = loss_t::all().get("mse");
+            auto        solver  = solver_t::all().get("lbfgs");
+            solver->parameter("solver::max_evals") = 100;
+            auto splitter                          = splitter_t::all().get("k-fold");
+            splitter->parameter("splitter::folds") = 2;
+            verif::set_default_seed(17);
+            const auto params = ml::params_t{}.solver(*solver).splitter(*splitter).tuner("local-search");
+            (void)model.fit(dataset, samples, *loss, params);
+            for (tensor_size_t i = 0; i < model.bias().size(); ++i)
+            {
+                digest(os, model.bias()(i));
+            }
+            for (tensor_size_t i = 0; i < model.weights().size(); ++i)
+            {
+                digest(os, model.weights()(i));
+            }
+            const auto outputs = model.predict(dataset, samples);
+            for (tensor_size_t i = 0; i < outputs.size(); ++i)
+            {
+                digest(os, outputs(i));
+            }
+        }
+        else if constexpr (std::is_base_of_v<datasource_t, tobject>)
+        {
+            // load from a directory with small files (present for some of the ids): the task, the features and the values stored
+            auto&      source = const_cast<tobject&>(object); // NOLINT(cppcoreguidelines-pro-type-const-cast)
+            const auto saved  = source.parameter("datasource::basedir").template value<string_t>();
+            source.parameter("datasource::basedir") = g_probe_dir;
+            try
+            {
+                source.load();
+                os << static_cast<int>(source.type()) << "," << source.samples() << "," << source.features() << "," << source.test_samples().size() << ":";
+                for (tensor_size_t f = 0; f < source.features(); ++f)
+                {
+                    source.visit_inputs(f,
+                                        [&](const feature_t& feature, const auto& data, const auto& mask)
+                                        {
+                                            os << feature.name() << "/" << static_cast<int>(feature.type()) << "/";
+                                            for (tensor_size_t i = 0; i < data.size(); ++i)
+                                            {
+                                                digest(os, static_cast<double>(data(i)));
+                                            }
+                                            for (tensor_size_t i = 0; i < mask.size(); ++i)
+                                            {
+                                                os << static_cast<int>(mask(i)) << ",";
+                                            }
+                                            os << ";";
+                                        });
+                }
+            }
+            catch (const std::exception& e)
+            {
+                os << "exception:" << e.what();
+            }
+            source.parameter("datasource::basedir") = saved;
+        }
     }
     catch (const std::exception& e)
     {
@@ -689,7 +994,7 @@ std::string behaviour(const tobject& object)
 // solvers own two nested configurable objects (step initialisation and line search): give them non-default parameters, so that a copy that
 // forgets them is visible both in the parameter comparison and in the behaviour probe
 template <class tobject>
-void configure_nested(tobject& object)
+std::pair<string_t, string_t> configure_nested(tobject& object)
 {
     if constexpr (std::is_base_of_v<solver_t, tobject>)
     {
@@ -715,12 +1020,35 @@ void configure_nested(tobject& object)
                            p0.storage());
             }
         };
+        // ... of other types than the solver's default ones (selected by id), rotating over the registered line searches
+        static size_t rotation = 0;
+        const auto    other_id = [&](const strings_t& ids, const string_t& current)
+        {
+            for (size_t k = 0; k < ids.size(); ++k)
+            {
+                if (const auto& id = ids[(rotation + k) % ids.size()]; id != current)
+                {
+                    return id;
+                }
+            }
+            return current;
+        };
+        const auto id0 = other_id(lsearch0_t::all().ids(), object.lsearch0().type_id());
+        const auto idk = other_id(lsearchk_t::all().ids(), object.lsearchk().type_id());
+        ++rotation;
+        object.lsearch0(id0);
+        object.lsearchk(idk);
         auto ls0 = object.lsearch0().clone();
         auto lsk = object.lsearchk().clone();
         tweak(*ls0);
         tweak(*lsk);
         object.lsearch0(*ls0);
         object.lsearchk(*lsk);
+        return std::make_pair(id0, idk);
+    }
+    else
+    {
+        return std::make_pair(string_t{}, string_t{});
     }
 }
 
@@ -739,6 +1067,19 @@ bool nested_equal(const tobject& a, const tobject& b)
 }
 
 template <class tobject>
+bool nested_ids_are(const tobject& object, const std::pair<string_t, string_t>& ids)
+{
+    if constexpr (std::is_base_of_v<solver_t, tobject>)
+    {
+        return object.lsearch0().type_id() == ids.first && object.lsearchk().type_id() == ids.second;
+    }
+    else
+    {
+        return true;
+    }
+}
+
+template <class tobject>
 void sweep_object(const std::string& factory, const std::string& id, const tobject& object, int64_t& nobj)
 {
     const auto a = nobj++;
@@ -749,7 +1090,13 @@ void sweep_object(const std::string& factory, const std::string& id, const tobje
     {
         // not a configurable object (benchmark functions): only the id and the clone's id can be observed
         auto clone = object.clone();
-        vt::put(vt::J("Clone").i("obj", b).i("of", a).b("idOK", clone->type_id() == id).b("equal", true).i("n", 0).b("behaves", behaviour(*clone) == behaviour(object)));
+        const auto probe = behaviour(object);
+        if (std::getenv("VERIF_SHOW_PROBES") != nullptr)
+        {
+            std::cerr << "probe " << factory << "/" << id << ": " << probe.substr(0, 400) << "\n";
+        }
+        vt::put(vt::J("Clone").i("obj", b).i("of", a).b("idOK", clone->type_id() == id).b("equal", true).i("n", 0).b("behaves", behaviour(*clone) == probe).i(
+            "probe", static_cast<int64_t>(probe.size())).b("probeThrew", probe.rfind("exception:", 0) == 0));
         return;
     }
     else
@@ -888,10 +1235,15 @@ void sweep_object(const std::string& factory, const std::string& id, const tobje
     vt::put(vt::J("Clone").i("obj", a + 100000).i("of", a).b("idOK", original->type_id() == id).b("equal", original->parameters() == object.parameters()).i(
         "n", static_cast<int64_t>(original->parameters().size())).b("behaves", behaviour(*original) == behaviour(object)));
     modify(*original, static_cast<const tobject*>(nullptr), a + 100000, 0);
-    configure_nested(*original);
+    const auto nested_ids = configure_nested(*original);
     auto clone = original->clone();
-    vt::put(vt::J("Clone").i("obj", b).i("of", a + 100000).b("idOK", clone->type_id() == id).b("equal", clone->parameters() == original->parameters() && nested_equal(*clone, *original)).i(
-        "n", static_cast<int64_t>(clone->parameters().size())).b("behaves", behaviour(*clone) == behaviour(*original)));
+    vt::put(vt::J("Clone").i("obj", b).i("of", a + 100000).b("idOK", clone->type_id() == id).b("equal", clone->parameters() == original->parameters() && nested_equal(*clone, *original) && nested_ids_are(*clone, nested_ids) && nested_ids_are(*original, nested_ids)).i(
+        "n", static_cast<int64_t>(clone->parameters().size())).b("behaves", behaviour(*clone) == behaviour(*original)).s("lsearch0", nested_ids.first).s("lsearchk", nested_ids.second).i(
+        "probe", static_cast<int64_t>(behaviour(*original).size())).b("probeThrew", behaviour(*original).rfind("exception:", 0) == 0));
+    if (std::getenv("VERIF_SHOW_PROBES") != nullptr)
+    {
+        std::cerr << "probe " << factory << "/" << id << ": " << behaviour(*original).substr(0, 400) << "\n";
+    }
     modify(*clone, original.get(), b, 1);
     for (const auto& p : original->parameters())
     {
@@ -921,12 +1273,378 @@ void sweep_factory(const std::string& name, const tfactory& factory, int64_t& no
     // unknown ids yield no object
     vt::put(vt::J("Reset").s("factory", name).s("id", "?").i("a", -1).i("b", -1));
     vt::put(vt::J("GetUnknown").s("factory", name).b("null", factory.get("no-such-id") == nullptr));
+    // has(id) <=> get(id) != nullptr, every registered id has a description, ids(regex) = the ids matching the regular expression
+    // (expressions whose matches are decided here with plain string operations: a prefix, a suffix, one id, all, none)
+    {
+        const auto ids    = factory.ids();
+        bool       hasOK  = !factory.has("no-such-id") && factory.get("no-such-id") == nullptr && ids.size() == factory.size();
+        bool       descOK = true;
+        for (const auto& id : ids)
+        {
+            hasOK  = hasOK && factory.has(id) && factory.get(id) != nullptr;
+            descOK = descOK && !factory.description(id).empty();
+        }
+        const auto escape = [](const string_t& text)
+        {
+            string_t out;
+            for (const auto c : text)
+            {
+                if (std::strchr("\\^$.|?*+()[]{}", c) != nullptr)
+                {
+                    out += '\\';
+                }
+                out += c;
+            }
+            return out;
+        };
+        const auto same = [&](const string_t& regex, const auto& matches)
+        {
+            strings_t expected;
+            for (const auto& id : ids)
+            {
+                if (matches(id))
+                {
+                    expected.push_back(id);
+                }
+            }
+            auto got = factory.ids(std::regex(regex));
+            std::sort(got.begin(), got.end());
+            std::sort(expected.begin(), expected.end());
+            return got == expected;
+        };
+        bool regexOK = same(".+", [](const string_t&) { return true; }) && same("no-such-id-[0-9]+", [](const string_t&) { return false; });
+        if (!ids.empty())
+        {
+            const auto prefix = ids.front().substr(0, 1), suffix = ids.back().substr(ids.back().size() - 1), one = ids[ids.size() / 2];
+            regexOK = regexOK && same(escape(prefix) + ".*", [&](const string_t& id) { return id.compare(0, prefix.size(), prefix) == 0; });
+            regexOK = regexOK && same(".*" + escape(suffix), [&](const string_t& id) { return id.size() >= suffix.size() && id.compare(id.size() - suffix.size(), suffix.size(), suffix) == 0; });
+            regexOK = regexOK && same(escape(one), [&](const string_t& id) { return id == one; });
+            // a match must cover the whole id: the id without its last character matches nothing unless it is itself registered
+            const auto cut = one.substr(0, one.size() - 1);
+            regexOK = regexOK && (cut.empty() || same(escape(cut), [&](const string_t& id) { return id == cut; }));
+        }
+        vt::put(vt::J("Factory").s("factory", name).i("ids", static_cast<int64_t>(ids.size())).b("hasOK", hasOK).b("descOK", descOK).b("regexOK", regexOK));
+    }
+}
+// ---------------------------------------------------------------------------------------------------------------------
+// driver-owned cases: parameter construction over other domains, pair strings with one / three tokens, a configurable object of the
+// driver's own (register_parameter with duplicate names, the variadic config(...))
+struct spec_t
+{
+    std::string         kind; // int, real, ipair, rpair
+    bool                minLE{true}, maxLE{true}, valLE{true};
+    double              min{0}, max{0};
+    std::vector<double> vals;
+};
+
+bool all_finite(const std::vector<double>& xs)
+{
+    return std::all_of(xs.begin(), xs.end(), [](const double x) { return std::isfinite(x); });
+}
+
+// the description of a parameter given by numbers (not read from an object): r = ranks of <<min, value(s), max, extra...>>
+vt::J spec_event(const char* e, const spec_t& sp, const std::vector<double>& extra = {})
+{
+    std::vector<double> reals{sp.min};
+    reals.insert(reals.end(), sp.vals.begin(), sp.vals.end());
+    reals.push_back(sp.max);
+    reals.insert(reals.end(), extra.begin(), extra.end());
+    return vt::J(e).s("kind", sp.kind).b("minLE", sp.minLE).b("maxLE", sp.maxLE).b("valLE", sp.valLE).a("r", ranks(reals)).s("text", "").b("finite", all_finite(reals));
+}
+
+parameter_t construct(const std::string& name, const spec_t& sp)
+{
+    const auto i = [](const double x) { return static_cast<int64_t>(x); };
+    if (sp.kind == "int")
+    {
+        return parameter_t::make_integer(name, i(sp.min), comp(sp.minLE), i(sp.vals[0]), comp(sp.maxLE), i(sp.max));
+    }
+    if (sp.kind == "real")
+    {
+        return parameter_t::make_scalar(name, sp.min, comp(sp.minLE), sp.vals[0], comp(sp.maxLE), sp.max);
+    }
+    if (sp.kind == "ipair")
+    {
+        return parameter_t::make_integer_pair(name, i(sp.min), comp(sp.minLE), i(sp.vals[0]), comp(sp.valLE), i(sp.vals[1]), comp(sp.maxLE), i(sp.max));
+    }
+    return parameter_t::make_scalar_pair(name, sp.min, comp(sp.minLE), sp.vals[0], comp(sp.valLE), sp.vals[1], comp(sp.maxLE), sp.max);
+}
+
+std::vector<double> stored_values(const parameter_t& p)
+{
+    const auto pi = info(p);
+    return pi.reals.size() >= 3 ? std::vector<double>(pi.reals.begin() + 1, pi.reals.end() - 1) : std::vector<double>{};
+}
+
+struct own_configurable_t final : public configurable_t
+{
+};
+
+void own_cases()
+{
+    const auto nan = std::numeric_limits<double>::quiet_NaN();
+    const auto inf = std::numeric_limits<double>::infinity();
+    struct domain_t
+    {
+        double      lo, hi;
+        const char* name;
+    };
+    const std::vector<domain_t> domains{
+        {-2.0,  2.0,       "[-2,2]"},
+        { 3.0,  3.0,   "min == max"},
+        {-1e9,  1e9, "[-1e9,+1e9]"},
+        { 0.0,  1e9,    "[0,+1e9]"},
+        { 2.0, -2.0,   "min > max"}
+    };
+    // ---- constructors: the default is accepted iff it is finite and inside the domain (the make_* factories validate it)
+    for (const auto& kind : {"int", "real", "ipair", "rpair"})
+    {
+        const auto real = std::string(kind)[0] == 'r';
+        const auto pair = std::string(kind).size() == 5;
+        for (const auto& dom : domains)
+        {
+            vt::put(vt::J("Reset").s("factory", "own:construct").s("id", std::string(kind) + " " + dom.name).i("a", -1).i("b", -1));
+            const auto          mid = std::floor(0.5 * (dom.lo + dom.hi));
+            std::vector<double> candidates{dom.lo - 1.0, dom.lo, dom.lo + 1.0, mid, dom.hi - 1.0, dom.hi, dom.hi + 1.0};
+            if (real)
+            {
+                for (const auto x : {dom.lo, dom.hi})
+                {
+                    candidates.push_back(std::nextafter(x, -inf));
+                    candidates.push_back(std::nextafter(x, +inf));
+                }
+                candidates.push_back(nan);
+                candidates.push_back(inf);
+                candidates.push_back(-inf);
+            }
+            for (int flags = 0; flags < (pair ? 8 : 4); ++flags)
+            {
+                spec_t sp;
+                sp.kind  = kind;
+                sp.min   = dom.lo;
+                sp.max   = dom.hi;
+                sp.minLE = (flags & 1) != 0;
+                sp.maxLE = (flags & 2) != 0;
+                sp.valLE = pair ? (flags & 4) != 0 : true;
+                const auto one = [&](std::vector<double> vals)
+                {
+                    sp.vals          = std::move(vals);
+                    bool constructed = true;
+                    std::vector<double> stored;
+                    try
+                    {
+                        stored = stored_values(construct("p", sp));
+                    }
+                    catch (const std::exception&)
+                    {
+                        constructed = false;
+                    }
+                    vt::put(spec_event("Construct", sp, stored).b("constructed", constructed).s("domain", dom.name));
+                };
+                for (size_t i1 = 0; i1 < candidates.size(); ++i1)
+                {
+                    if (!pair)
+                    {
+                        one({candidates[i1]});
+                        continue;
+                    }
+                    for (size_t i2 = 0; i2 < candidates.size(); ++i2)
+                    {
+                        // pairs: all the combinations of the bounds and the middle, a third of the others (rotating with the comparators)
+                        const auto core = [](const size_t i) { return i == 1 || i == 3 || i == 5; };
+                        if ((core(i1) && core(i2)) || (i1 * candidates.size() + i2 + static_cast<size_t>(flags)) % 3 == 0)
+                        {
+                            one({candidates[i1], candidates[i2]});
+                        }
+                    }
+                }
+            }
+        }
+    }
+    // ---- pair strings with one, two, three tokens
+    for (const auto& kind : {"ipair", "rpair"})
+    {
+        vt::put(vt::J("Reset").s("factory", "own:pairstring").s("id", kind).i("a", -1).i("b", -1));
+        const char* seps = ";,:|/ ";
+        int         isep = 0;
+        for (const auto& dom : {domains[0], domains[2]})
+        {
+            for (int flags = 0; flags < 8; ++flags)
+            {
+                spec_t sp;
+                sp.kind  = kind;
+                sp.min   = dom.lo;
+                sp.max   = dom.hi;
+                sp.minLE = (flags & 1) != 0;
+                sp.maxLE = (flags & 2) != 0;
+                sp.valLE = (flags & 4) != 0;
+                sp.vals  = {std::floor(0.5 * (dom.lo + dom.hi)) - 1.0, std::floor(0.5 * (dom.lo + dom.hi)) + 1.0};
+                const std::vector<std::vector<double>> token_lists{
+                    {},
+                    {0.0},
+                    {dom.lo},
+                    {dom.hi + 1.0},
+                    {0.0, 1.0},
+                    {1.0, 0.0},
+                    {1.0, 1.0},
+                    {dom.lo, dom.hi},
+                    {-1.0, 0.0, 1.0},
+                    {1.0, 0.0, -1.0},
+                    {0.0, dom.hi + 1.0, 1.0},
+                    {0.0, 1.0, dom.hi + 1.0},
+                    {0.0, 1.0, 1.0, 1.0}
+                };
+                for (const auto& tokens : token_lists)
+                {
+                    auto        param = construct("p", sp);
+                    std::string text;
+                    for (size_t k = 0; k < tokens.size(); ++k)
+                    {
+                        text += (k > 0 ? std::string(1, seps[(isep++) % 6]) : std::string()) + (sp.kind == "ipair" ? std::to_string(static_cast<int64_t>(tokens[k])) : fmt(tokens[k]));
+                    }
+                    bool threw = false;
+                    try
+                    {
+                        param = text;
+                    }
+                    catch (const std::exception&)
+                    {
+                        threw = true;
+                    }
+                    auto extra = stored_values(param);
+                    extra.insert(extra.end(), tokens.begin(), tokens.end());
+                    vt::put(spec_event("AssignStr", sp, extra).b("threw", threw).i("ntok", static_cast<int64_t>(tokens.size())).s("string", text));
+                }
+            }
+        }
+    }
+    // ---- a configurable object of the driver's own: registration (duplicate names throw and leave the object as it was), config(...)
+    {
+        const int64_t obj = 900000;
+        vt::put(vt::J("Reset").s("factory", "own:configurable").s("id", "register+config").i("a", obj).i("b", -1));
+        vt::put(vt::J("Create").i("obj", obj));
+        own_configurable_t object;
+        const auto         read_all = [&]()
+        {
+            for (const auto& p : object.parameters())
+            {
+                vt::put(param_event("ReadOn", obj, p));
+            }
+        };
+        const auto reg = [&](const std::string& name, const spec_t& sp)
+        {
+            const auto before = object.parameters();
+            bool       threw  = false;
+            try
+            {
+                object.register_parameter(construct(name, sp));
+            }
+            catch (const std::exception&)
+            {
+                threw = true;
+            }
+            vt::put(spec_event("Register", sp).i("obj", obj).s("name", name).b("threw", threw).i("n", static_cast<int64_t>(object.parameters().size())).b(
+                "same", object.parameters() == before));
+        };
+        const auto S = [](const char* kind, const double lo, const bool minLE, const std::vector<double>& vals, const bool maxLE, const double hi, const bool valLE = true)
+        {
+            spec_t sp;
+            sp.kind  = kind;
+            sp.min   = lo;
+            sp.max   = hi;
+            sp.minLE = minLE;
+            sp.maxLE = maxLE;
+            sp.valLE = valLE;
+            sp.vals  = vals;
+            return sp;
+        };
+        reg("own::count", S("int", 0, true, {3}, true, 10));
+        reg("own::count", S("int", 0, true, {4}, true, 10));           // duplicate name, same kind
+        reg("own::count", S("real", -1.0, true, {0.5}, true, 1.0));    // duplicate name, another kind
+        reg("own::rate", S("real", 0.0, false, {0.0}, true, 1.0));     // default outside (strict bound): nothing is registered
+        reg("own::rate", S("real", 0.0, false, {0.25}, true, 1.0));    // ... the name is still free
+        reg("own::range", S("ipair", 1, true, {2, 5}, true, 8, false));
+        reg("own::range", S("ipair", 1, true, {2, 5}, true, 8, false)); // duplicate of an identical parameter
+        reg("own::span", S("rpair", -1e9, true, {-1.0, 1.0}, false, 1e9));
+        reg("own::rate", S("real", 0.0, true, {0.75}, true, 1.0));     // duplicate of a name registered in between
+        reg("own::count2", S("int", 0, true, {3}, true, 10));          // same parameter under another name: accepted
+        read_all();
+        // unknown names throw
+        {
+            bool threw = false;
+            try
+            {
+                (void)object.parameter("own::missing");
+            }
+            catch (const std::exception&)
+            {
+                threw = true;
+            }
+            vt::put(vt::J("Lookup").i("obj", obj).s("name", "own::missing").b("threw", threw).b("null", object.parameter_if("own::missing") == nullptr));
+        }
+        // config(name, value, ...): every pair is assigned, or the call throws; a rejected value leaves its parameter as it was
+        struct item_t
+        {
+            std::string         name;
+            std::vector<double> req;
+        };
+        const auto config_event = [&](const std::vector<item_t>& items, const std::vector<parameter_t>& before, const bool threw)
+        {
+            std::string json = "[";
+            for (const auto& item : items)
+            {
+                const auto it = std::find_if(before.begin(), before.end(), [&](const parameter_t& p) { return p.name() == item.name; });
+                json += json.size() > 1 ? "," : "";
+                if (it == before.end())
+                {
+                    json += vt::J().s("name", item.name).s("kind", "none").b("minLE", true).b("maxLE", true).b("valLE", true).a("r", std::vector<int64_t>{}).s("text", "").str();
+                    continue;
+                }
+                auto extra = item.req;
+                const auto after = stored_values(object.parameter(item.name));
+                extra.insert(extra.end(), after.begin(), after.end());
+                const auto pi    = info(*it);
+                auto       reals = pi.reals;
+                reals.insert(reals.end(), extra.begin(), extra.end());
+                json += vt::J().s("name", item.name).s("kind", pi.kind).b("minLE", pi.minLE).b("maxLE", pi.maxLE).b("valLE", pi.valLE).a("r", ranks(reals)).s("text", "").str();
+            }
+            json += "]";
+            vt::put(vt::J("Config").i("obj", obj).b("threw", threw).raw("items", json));
+        };
+        const auto run_config = [&](const std::vector<item_t>& items, const auto& call)
+        {
+            const auto before = object.parameters();
+            bool       threw  = false;
+            try
+            {
+                call();
+            }
+            catch (const std::exception&)
+            {
+                threw = true;
+            }
+            config_event(items, before, threw);
+        };
+        run_config({{"own::count", {7}}}, [&] { object.config("own::count", 7); });
+        run_config({{"own::count", {5}}, {"own::rate", {0.5}}}, [&] { object.config("own::count", int64_t{5}, "own::rate", 0.5); });
+        run_config({{"own::count", {6}}, {"own::rate", {1.0}}, {"own::range", {1, 8}}, {"own::span", {-1e9, 0.0}}},
+                   [&] { object.config("own::count", 6, "own::rate", 1.0, "own::range", std::make_tuple(int64_t{1}, int64_t{8}), "own::span", std::make_tuple(-1e9, 0.0)); });
+        run_config({{"own::count", {2}}, {"own::rate", {0.0}}}, [&] { object.config("own::count", 2, "own::rate", 0.0); });              // the second value is rejected
+        run_config({{"own::rate", {2.0}}, {"own::count", {9}}}, [&] { object.config("own::rate", 2.0, "own::count", 9); });              // the first value is rejected
+        run_config({{"own::count", {1}}, {"own::missing", {1}}}, [&] { object.config("own::count", 1, "own::missing", 1); });            // unknown name
+        run_config({{"own::range", {5, 5}}, {"own::count", {8}}}, [&] { object.config("own::range", std::make_tuple(5, 5), "own::count", 8); }); // v1 < v2 violated
+        run_config({{"own::count", {10}}, {"own::count2", {0}}, {"own::rate", {0.125}}}, [&] { object.config("own::count", 10, "own::count2", 0, "own::rate", 0.125); });
+        run_config({}, [&] { object.config(); });
+        read_all();
+    }
 }
 } // namespace
 
 int sweep(const char* out_path)
 {
     vt::Trace::get().open(out_path);
+    g_probe_dir = (std::filesystem::path(out_path).parent_path() / "dsprobe").string();
+    make_probe_files(g_probe_dir);
     int64_t nobj = 0;
     sweep_factory("solver", solver_t::all(), nobj);
     sweep_factory("lsearch0", lsearch0_t::all(), nobj);
@@ -939,5 +1657,6 @@ int sweep(const char* out_path)
     sweep_factory("linear", linear_t::all(), nobj);
     sweep_factory("datasource", datasource_t::all(), nobj);
     sweep_factory("function", function_t::all(), nobj);
+    own_cases();
     return 0;
 }
